@@ -1,6 +1,7 @@
 import VelaVerif.Lemmas.SchedMem
 import VelaVerif.Lemmas.SchedLive
 import VelaVerif.Lemmas.SchedFast
+import VelaVerif.Lemmas.SchedFastAssert
 import VelaVerif.Spec.SchedMem
 /-!
 # C12 / C02 — what the scheduler assumes a schedule needs is what the schedule really needs
@@ -295,14 +296,26 @@ theorem snapshot_wraps_witness :
     the SRAM cache never push its usage above the configured size.
     Hypotheses: the identities of the ranges are distinct, every movable range belongs to the target area (both hold for
     `lr_graph.lrs` of a graph extracted for one area; checked on every real call by the harness), no tick holds 2 GiB.
-    Not claimed: that the final assertion never fires (it did before repair C13-36; `fastComponents` models it and the theorem
-    covers the runs in which it holds) — see `design.d/SchedMem.md`. -/
+    That the function does not end in its final assertion instead is `fast_storage_assertion_holds` below. -/
 theorem fast_storage_within_limit (lrs : List FLR) (ct : Nat) (limit : Int) (r : FSResult)
     (hids : (lrs.map (·.id)).Nodup) (harea : ∀ lr ∈ lrs, lr.scratched = true → lr.inArea = true)
     (hb : ∀ t, Spec.SchedMem.usageAt ((lrs.map (·.tlr)).filterMap TLR.toRng) t < 2147483648)
     (h : useFastStorage lrs ct limit = .ok r) :
     Spec.SchedMem.FastStorageFits (frngs lrs r.st.evicted) limit (ct + 2) :=
   useFastStorage_fits lrs ct limit r hids harea (by intro t; rw [← usageAt_toRng]; exact hb t) h
+
+/-- **fast_storage_assertion_holds.**  The final assertion of `use_fast_storage_for_feature_maps` ("Allocation exceeds staging
+    limit", as stated since repair C13-36: `usage <= max(staging_limit, fixed)`) holds for **every** set of ranges with distinct
+    identities, every limit and all access scores: once `get_temporal_memory_usage` has returned, the function never ends in an
+    AssertionError.  (The other outcomes the model has — IndexError / ValueError of a range outside the usage array or an empty
+    slice — do not occur for extracted ranges and are not excluded here.)  Proof: `max_mem_usage = base_mem_usage + undecided
+    ranges` and "where `base_mem_usage` exceeds the limit it still is the fixed usage" are invariants of every `evict` / guarded
+    `keep` (`GInv`); the exhaustive search records only patterns whose kept ranges passed `can_fit` in order (`allocExh_good`), and
+    it always reaches a leaf because `always_fits` implies `can_fit` (`allocExh_reaches`). -/
+theorem fast_storage_assertion_holds (lrs : List FLR) (ct : Nat) (limit : Int) (maxU : List Int)
+    (hids : (lrs.map (·.id)).Nodup) (hT : temporalUsage (lrs.map (·.tlr)) ct = .ok maxU) :
+    useFastStorage lrs ct limit ≠ .error .assert_ :=
+  useFastStorage_no_assert lrs ct limit maxU hids hT
 
 /-- the loop "Force all OFMs to fast-storage" moves only what the Spec allows: no feature map that is read outside the NPU
     subgraph, no variable tensor write (the guard seeded change C12-r3m2 weakened) -/
